@@ -137,8 +137,9 @@ class Loop:
 class ClassDecl:
     """static description of a class whose instances appear in verified code"""
 
-    def __init__(self, name, fields=None, consts=None, bases=(), methods=None, pyname=None):
+    def __init__(self, name, fields=None, consts=None, bases=(), methods=None, pyname=None, root=None):
         self.name = name
+        self.root = root or name
         self.fields = fields or {}  # mutable fields: name -> Ty (live in the heap)
         self.consts = consts or {}  # immutable attributes: name -> Ty (uninterpreted functions of the object)
         self.bases = tuple(bases)
